@@ -18,6 +18,7 @@ EXPLANATION = (
     "consistent with the length tests on the path must be {0} for None, {1} for the single element, only >=2 for the list); "
     "the collecting executors must return every selected callback's value unfiltered (gather keeps order); `_trigger` must "
     "hand out that value only when the transition executed and None otherwise. Concrete return values are not computed."
+    " Added after seeded batch 9: event-named before/on callbacks carry the same-event condition on every transition (so only this event's callbacks contribute), and each provider is inspected as the object it is (dir() of the attached object)."
 )
 EXPLANATION += (
     " " + 'Two clauses are shared with other properties because they are necessary here too: spec identity (a callback dropped as duplicate contributes no result - C02.once) and queue clearing on every failure (stale triggers would answer the next call - C04.clear).'
